@@ -27,4 +27,6 @@ def jobs(tier):
         out.append(dict(name='blockcentred_3x2x1', src='h_grid2.cpp', defs={'GNX': 3, 'GNY': 2, 'GNZ': 1, 'INACTIVE': 4}, entry='h_blockcentred', tus=TUS, fp='real', loopmax=4000, maxsteps=6000000))
         out.append(dict(name='actnum_3x2x2', src='h_grid.cpp', defs={'DMAX': 8, 'GNX': 3, 'GNY': 2, 'GNZ': 2}, entry='h_actnum', tus=TUS, fp='real', loopmax=4000, maxsteps=30000000))
         out.append(dict(name='geometry_3x2x1', src='h_grid.cpp', defs={'DMAX': 8, 'GNX': 3, 'GNY': 2, 'GNZ': 1}, entry='h_geometry', tus=TUS, fp='real', loopmax=4000, maxsteps=3000000))
+    out.append(dict(name='depthz_2x2x2', src='h_grid2.cpp', defs={}, entry='h_depthz', tus=TUS, fp='real', loopmax=20000, maxsteps=40000000, timeout=900, bounds='DXV/DYV/DZV/DEPTHZ generators on 2x2x2, all positive spacings, arbitrary node depths'))
+    out.append(dict(name='pillars_1cell', src='h_grid2.cpp', defs={}, entry='h_pillars', tus=TUS, fp='real', loopmax=20000, maxsteps=40000000, timeout=900, bounds='one cell on four arbitrarily inclined pillars, arbitrary corner depths'))
     return out
